@@ -77,6 +77,10 @@ func (f *FieldUpdater) Merge(dst, src proto.Message) {
 		writableMask = fmutils.NestedMaskFromPaths(f.writableFields.Paths)
 	}
 
+	// The filters below clear fields in place. Work on a copy: src belongs to the caller, who may go on using it, and
+	// it may share sub-messages with other messages (a model's preset, a stored item) that must not be pruned.
+	src = proto.Clone(src)
+
 	// only allow writing writable fields by resetting non-writable fields in src
 	writableMask.Filter(src)
 
